@@ -21,6 +21,20 @@ impl Popen {
             final(self).stdin == old(self).stdin, final(self).stdout == old(self).stdout, final(self).stderr == old(self).stderr, final(self).detached == old(self).detached,
     { unimplemented!() }
 }
+impl Popen {
+    // Contract of PopenOsImpl::waitpid (unit pstate) in spawn-world terms: a blocking call reaps the child; a non-blocking one may find
+    // it still running (nothing is reaped then)
+    #[verifier::external_body]
+    pub fn waitpid(&mut self, block: bool, Tracked(w): Tracked<&mut World>) -> (r: io::Result<()>)
+        requires !old(w).s.in_child,
+        ensures final(w).img == old(w).img,
+            final(self).stdin == old(self).stdin, final(self).stdout == old(self).stdout, final(self).stderr == old(self).stderr, final(self).detached == old(self).detached,
+            !(old(self).child_state is Running) ==> final(w).s == old(w).s && final(self).child_state == old(self).child_state,
+            old(self).child_state is Running && block ==> final(w).s == (SW { child_unreaped: false, waits: old(w).s.waits + 1, ..old(w).s }) && !(final(self).child_state is Running) && !(final(self).child_state is Preparing),
+            old(self).child_state is Running && !block ==> (final(w).s == old(w).s && final(self).child_state == old(self).child_state)
+                || (final(w).s == (SW { child_unreaped: false, ..old(w).s }) && !(final(self).child_state is Running) && !(final(self).child_state is Preparing)),
+    { unimplemented!() }
+}
 // R6: std conversions used by os_start / create, each the identity on the content
 #[verifier::external_body]
 pub fn opt_osstr(o: &Option<OsString>) -> (r: Option<&OsStr>)         // Option<OsString>::as_deref()
